@@ -32,6 +32,26 @@ claimed = {
    text="ValidateBucketName is proved equivalent to the statement's regular language (labels, single dots, 3..63, not IPv4) in the SMT theory of strings/regular expressions for all strings; createBucket refuses before any storage call. The label loop uses two assumed clauses about strings.Split which are validated by bounded enumeration.",
    note="Regular-language goals are decided by z3 5.1.0 only (no second opinion). Bounded: split lemma (all strings over {a,0,-,.} up to length 9) and the regexp->RegLan translator (differential against package regexp).",
    technique=T+" (theory of strings)", design="7 (C17)"),
+ "C02": dict(category="proof",
+   text="One-step contracts, taken from the reference semantics in the statement, are discharged for the memory backend's bucket and object operations (BucketExists, CreateBucket, DeleteBucket, ForceDeleteBucket, HeadObject, GetObject, PutObject, DeleteObject and bucket.put/rm/object under them) over the abstract view bucket name -> key -> current object, and for the root-package handlers that map backend answers to S3 errors (ensureBucketExists, headBucket, deleteBucket, deleteObject, deleteMulti, CopyObject, ErrorCode.Status): absent bucket -> NoSuchBucket, existing bucket on create -> BucketAlreadyExists, non-empty bucket -> BucketNotEmpty, absent or delete-marked key -> NoSuchKey, put then get returns what was put, delete is idempotent. The sequence claim follows by induction over one-step contracts that all preserve and assume the same invariant. All inputs, no bound.",
+   note="Memory backend only: the bolt and afero backends are outside the verified set (no contracts; DESIGN.md section 10), so 'all bundled backends agree' is not decided here. The preservation of the bucket invariant by put is stated but waived (listed in the evidence). Trusted: skiplist model, Backend interface contracts at the handler level.",
+   technique=T, design="7 (C02)"),
+ "C03": dict(category="proof",
+   text="s3mem.(*Backend).ListBucket is verified, for every bucket content, prefix, marker and page size, against contracts taken from the statement over the sorted key index of the skiplist model: soundness (every Contents entry is a live, matching, non-grouped key after the marker, with the stored Size), completeness (every live matching key among those visited is either in Contents or represented in the prefix set), strict ascending order, common prefixes are de-duplicated and each stems from a listed key; goskipiter.(New, Next, Key, Value, Seek) and ObjectList.(Add, AddPrefix) carry the contracts it relies on. Loop invariants with no bound on the number of keys.",
+   note="Prefix.Match is under a `nobody` contract (its result is named by uninterpreted functions); it is tied to the wording of the statement only by a bounded exhaustive stand-in (all keys/prefixes over {a,b,/} up to length 5 quick / 7 thorough), reported as bounded in the evidence and not counted as proved. ETag equality is not a clause (string concatenation of hex digest); V1/V2 XML rendering, bolt and afero listings are outside the verified set. Trusted: skiplist model (sorted unique keys).",
+   technique=T, design="7 (C03)"),
+ "C04": dict(category="proof",
+   text="For the paginating backend (memory), ListBucket is verified to return at most MaxKeys entries, to start strictly after the marker whether or not the marker is present, and when it reports IsTruncated to hand back a NextMarker that is a key of the bucket after the marker such that the page is complete for every key up to and including NextMarker and contains no key beyond it; when not truncated the page is complete for the whole bucket. listBucket/listBucketPageFromQuery/parseClampedInt carry the request decoding. These one-page contracts are what the multi-page statement follows from by induction on the position of NextMarker in the key order.",
+   note="The induction over pages itself (concatenation of pages equals the unpaginated listing) is a consequence argued in DESIGN.md, not a discharged obligation; termination of the page walk follows from NextMarker being strictly after the marker (clause next). The fallback path for non-paginating backends is covered only as far as listBucket's contract states it. Prefix.Match as for C03 (bounded stand-in).",
+   technique=T, design="7 (C04)"),
+ "C14": dict(category="proof",
+   text="uploader.ListParts is verified against the statement: exactly the parts held for the upload after the marker, true part numbers, sizes and ETags, ascending order, MaxParts respected, IsTruncated/NextPartNumberMarker such that the next page continues with none skipped or repeated; together with UploadPart/CompleteMultipartUpload/Abort/remove contracts on the uploader invariant. All inputs and all iterations.",
+   note="ListMultipartUploads and the ordering of the per-bucket upload index (bucketUploads.add/remove index consistency) are not yet under contract: a seeded change to remove() that leaves a stale index entry is NOT detected (DESIGN.md, seeded table). ",
+   technique=T, design="7 (C14)"),
+ "C16": dict(category="proof",
+   text="hostBucketMiddleware and hostBucketBaseMiddleware closures are verified in the SMT theory of strings: the rewritten request path is '/' + first host label + original path exactly when the host has the form <single label>.<base> for a configured base (or unconditionally in host-bucket mode), untouched otherwise, and the inner handler is served exactly once with it; Server wires the middlewares according to the options. routeBase's dispatch is verified over the decomposition of the path.",
+   note="The slash normalisation inside routeBase (strings.Trim + SplitN) is checked by a bounded exhaustive stand-in (all paths over {a,/,.} up to length 7 quick / 9 thorough) and reported as bounded. net/http behaviour (Host header parsing) is an assumed contract.",
+   technique=T+" (theory of strings)", design="7 (C16)"),
 }
 na = {
  "C15": "not applicable: restart/crash durability rests on bbolt's commit protocol, OS file semantics and BSON/JSON encoders, none of which is /repo code a function contract can express (DESIGN.md section 11)",
